@@ -131,7 +131,8 @@ func injectFault(r *Rng, c *SrvConf, pc *pb.ServerConfig, selfIP *net.IP) string
 		pc.Ntp = manyIPs(Pick(r, 64, 100))
 		return "ntp-many"
 	case "domain-long":
-		pc.Domain = strings.Repeat("a", Pick(r, 256, 300, 1000))
+		// too long in BYTES; the multi-byte variants have at most 255 characters
+		pc.Domain = Pick(r, strings.Repeat("a", 256), strings.Repeat("a", 300), strings.Repeat("a", 1000), strings.Repeat("é", 128), strings.Repeat("日", 100), strings.Repeat("a", 254)+"é")
 		return "domain-long"
 	case "lease-huge":
 		pc.LeaseDuration = Pick(r, "1193047h", "1300000h", "2000000h") // > 2^32-1 seconds
@@ -179,7 +180,7 @@ func injectFault(r *Rng, c *SrvConf, pc *pb.ServerConfig, selfIP *net.IP) string
 		pc.Client["02:00:00:00:cc:05"] = &pb.ClientConfig{Dns: manyIPs(64)}
 		return "c-dns-many"
 	case "c-host-long":
-		pc.Client["02:00:00:00:cc:06"] = &pb.ClientConfig{Hostname: strings.Repeat("h", 256)}
+		pc.Client["02:00:00:00:cc:06"] = &pb.ClientConfig{Hostname: Pick(r, strings.Repeat("h", 256), strings.Repeat("ü", 128), strings.Repeat("h", 254)+"ß")}
 		return "c-host-long"
 	case "c-ip-out":
 		pc.Client["02:00:00:00:cc:07"] = &pb.ClientConfig{Ip: U32IP(to + 2).String()}
